@@ -1,6 +1,4 @@
 package main
 
 func specPrelude(x *Exec, quant bool) []string { return nil }
-func cmdCheck(args []string) int    { return 2 }
-func cmdReplay(args []string) int   { return 2 }
 func cmdSelftest(args []string) int { return 2 }
